@@ -18,17 +18,17 @@ theorem Sat.ne_none {α : Type} {x : Option α} {Q : α → Prop} (h : Sat x Q) 
   rw [hb]; simp
 
 theorem scanWhile_ex (p : Int → Bool) (hp : p eof = false) (l : Lexer) (h0 : 0 ≤ l.pos) (h1 : l.pos ≤ l.len) :
-    ∃ r l', scanWhile p hp l = some (r, l') ∧ (l'.len = l.len ∧ l'.mp = l.mp ∧ l'.tagStart = l.tagStart ∧ l'.bad = l.bad) ∧ l'.start = l.start ∧ p r = false ∧
+    ∃ r l', scanWhile p hp l = some (r, l') ∧ (l'.len = l.len ∧ l'.mp = l.mp ∧ l'.tagStart = l.tagStart ∧ l'.bad = l.bad ∧ l'.tagBad = l.tagBad ∧ l'.input = l.input) ∧ l'.start = l.start ∧ p r = false ∧
       ScanFacts l r l' := by
   obtain ⟨⟨r, l'⟩, h, f⟩ := scanWhile_sat p hp l
-    (Q := fun x => (x.2.len = l.len ∧ x.2.mp = l.mp ∧ x.2.tagStart = l.tagStart ∧ x.2.bad = l.bad) ∧ x.2.start = l.start ∧ p x.1 = false ∧ ScanFacts l x.1 x.2)
+    (Q := fun x => (x.2.len = l.len ∧ x.2.mp = l.mp ∧ x.2.tagStart = l.tagStart ∧ x.2.bad = l.bad ∧ x.2.tagBad = l.tagBad ∧ x.2.input = l.input) ∧ x.2.start = l.start ∧ p x.1 = false ∧ ScanFacts l x.1 x.2)
     h0 h1 (fun _ _ a b c d => ⟨a, b, c, d⟩)
   exact ⟨r, l', h, f⟩
 
 /-! ### comments -/
 
-theorem lexLineComment_sat {n : Int} {l0 l : Lexer} (hn : l.len = n ∧ (l.mp : Int) ≤ n ∧ 0 ≤ l.tagStart ∧ l.tagStart ≤ n ∧ l.bad = 0) (h0 : 0 ≤ l.start)
-    (h1 : l.start ≤ l.pos) (h2 : l.pos ≤ n) (hadv : l0.pos < l.pos) :
+theorem lexLineComment_sat {n : Int} {l0 l : Lexer} (hn : l.len = n ∧ (l.mp : Int) ≤ n ∧ 0 ≤ l.tagStart ∧ l.tagStart ≤ n ∧ l.bad = 0 ∧ l.tagBad = 0) (h0 : 0 ≤ l.start)
+    (h1 : l.start ≤ l.pos) (h2 : l.pos ≤ n) (hadv : l0.pos < l.pos) (hi0 : l.input = l0.input) :
     Sat (lexLineComment l) (Post n .text l0) := by
   unfold lexLineComment
   apply Sat.bind
@@ -41,12 +41,13 @@ theorem lexLineComment_sat {n : Int} {l0 l : Lexer} (hn : l.len = n ∧ (l.mp : 
   fin
 
 theorem lexBlockComment_sat {n : Int} {l0 : Lexer} : ∀ (k : Nat) (l : Lexer) (star : Bool), l.rem = k →
-    (l.len = n ∧ (l.mp : Int) ≤ n ∧ 0 ≤ l.tagStart ∧ l.tagStart ≤ n ∧ l.bad = 0) → 0 ≤ l.start → l.start ≤ l.pos → l.pos ≤ n → l0.pos < l.pos →
+    (l.len = n ∧ (l.mp : Int) ≤ n ∧ 0 ≤ l.tagStart ∧ l.tagStart ≤ n ∧ l.bad = 0 ∧ l.tagBad = 0) → 0 ≤ l.start → l.start ≤ l.pos → l.pos ≤ n → l0.pos < l.pos →
+    (byteAt l.input l.start.toNat = 47 ∧ byteAt l.input (l.start.toNat + 1) = 42) → l.input = l0.input →
     Sat (lexBlockComment l star) (Post n .text l0) := by
   intro k
   induction k using Nat.strongRecOn with
   | _ k ih =>
-    intro l star hk hn h0 h1 h2 hadv
+    intro l star hk hn h0 h1 h2 hadv hcm hi0
     unfold lexBlockComment
     split
     · rename_i heq
@@ -55,26 +56,29 @@ theorem lexBlockComment_sat {n : Int} {l0 : Lexer} : ∀ (k : Nat) (l : Lexer) (
     · rename_i r l1 hnx
       obtain ⟨hl1, hs1, hf1⟩ := next_facts hnx (by lx)
       unfold NextFacts at hf1
+      have hcm1 : byteAt l1.input l1.start.toNat = 47 ∧ byteAt l1.input (l1.start.toNat + 1) = 42 := by
+        rw [hl1.2.2.2.2.2, hs1]; exact hcm
       split
-      · first | exact errorf_sat (by lx) | exact errorfAt_sat (by lx)
+      · -- the comment is never closed: reported at its `/*`, `l.start`
+        exact errorfAt_sat (by lx) (by inq) (cmt_err hcm1)
       split
-      · exact ih l1.rem (by simp only [Lexer.rem] at hk ⊢; lx) l1 _ rfl (by lx) (by lx) (by lx) (by lx) (by lx)
+      · exact ih l1.rem (by simp only [Lexer.rem] at hk ⊢; lx) l1 _ rfl (by lx) (by lx) (by lx) (by lx) (by lx) hcm1 (by inq)
       split
       · obtain ⟨l2, he, hl2, hp2, hs2, hw2⟩ := emit_ex .tComment (l := l1) (by lx) (by lx) (by lx)
         simp only [he]
         apply Sat.ofSome
-        apply Post.of (by lx) (by lx) (by lx) (by lx) (by lx) (by intro _ _; lx) (by intro _ _; lx)
-      · exact ih l1.rem (by simp only [Lexer.rem] at hk ⊢; lx) l1 _ rfl (by lx) (by lx) (by lx) (by lx) (by lx)
+        apply Post.of (by lx) (by lx) (by lx) (by lx) (by lx) (by intro _ _; lx) (by intro _ _; lx) (by exq) (by inq)
+      · exact ih l1.rem (by simp only [Lexer.rem] at hk ⊢; lx) l1 _ rfl (by lx) (by lx) (by lx) (by lx) (by lx) hcm1 (by inq)
 
 /-! ### soydoc -/
 
 /-- result of lexSoyDocParam and its second half: a lexer with the invariant, not behind `p` -/
 def SdpPost (n p : Int) (l' : Lexer) : Prop :=
-  (l'.len = n ∧ (l'.mp : Int) ≤ n ∧ 0 ≤ l'.tagStart ∧ l'.tagStart ≤ n ∧ l'.bad = 0) ∧ 0 ≤ l'.start ∧ l'.start ≤ l'.pos ∧ l'.pos ≤ n ∧ p ≤ l'.pos
+  (l'.len = n ∧ (l'.mp : Int) ≤ n ∧ 0 ≤ l'.tagStart ∧ l'.tagStart ≤ n ∧ l'.bad = 0 ∧ l'.tagBad = 0) ∧ 0 ≤ l'.start ∧ l'.start ≤ l'.pos ∧ l'.pos ≤ n ∧ p ≤ l'.pos
 
-theorem lexSoyDocParamName_sat {n : Int} {l : Lexer} (hn : l.len = n ∧ (l.mp : Int) ≤ n ∧ 0 ≤ l.tagStart ∧ l.tagStart ≤ n ∧ l.bad = 0) (h0 : 0 ≤ l.start)
+theorem lexSoyDocParamName_sat {n : Int} {l : Lexer} (hn : l.len = n ∧ (l.mp : Int) ≤ n ∧ 0 ≤ l.tagStart ∧ l.tagStart ≤ n ∧ l.bad = 0 ∧ l.tagBad = 0) (h0 : 0 ≤ l.start)
     (h1 : l.start ≤ l.pos) (h2 : l.pos ≤ n) :
-    Sat (lexSoyDocParamName l) (SdpPost n l.pos) := by
+    Sat (lexSoyDocParamName l) (fun l' => SdpPost n l.pos l' ∧ l'.input = l.input) := by
   unfold lexSoyDocParamName
   obtain ⟨r1, l1, e1, hl1, hs1, _, hf1⟩ := scanWhile_ex sdpSkip (by decide) l (by lx) (by lx)
   unfold ScanFacts at hf1
@@ -88,6 +92,7 @@ theorem lexSoyDocParamName_sat {n : Int} {l : Lexer} (hn : l.len = n ∧ (l.mp :
     obtain ⟨l3, e3, hl3, hp3, hs3, hw3⟩ := emit_ex .tIdent (l := l2) (by lx) (by lx) (by lx)
     simp only [e3]
     apply Sat.ofSome
+    refine ⟨?_, by simp only [Bool.false_eq_true, if_false, ignore_input]; rw [hl3.2.2.2.2.2.2, hl2.2.2.2.2.2, ignore_input, backup_input, hl1.2.2.2.2.2]⟩
     unfold SdpPost
     simp only [Bool.false_eq_true, if_false, ignore_pos, ignore_start, ignore_len]
     exact ⟨by lx, by lx, by lx, by lx, by lx⟩
@@ -96,6 +101,9 @@ theorem lexSoyDocParamName_sat {n : Int} {l : Lexer} (hn : l.len = n ∧ (l.mp :
     obtain ⟨l3, e3, hl3, hp3, hs3, hw3⟩ := emit_ex .tIdent (l := l2.addPos (-1)) (by lx) (by lx) (by lx)
     simp only [e3]
     apply Sat.ofSome
+    have hin3 : l3.input = l.input := by
+      rw [hl3.2.2.2.2.2.2, addPos_input, hl2.2.2.2.2.2, ignore_input, backup_input, hl1.2.2.2.2.2]
+    refine ⟨?_, by split <;> simp only [ignore_input, addPos_input, hin3]⟩
     unfold SdpPost
     split
     · simp only [ignore_pos, ignore_start, ignore_len, addPos_pos, addPos_len]
@@ -108,15 +116,16 @@ theorem SdpPost.mono {n p q : Int} {l : Lexer} (h : SdpPost n p l) (hq : q ≤ p
   unfold SdpPost at h ⊢
   omega
 
-theorem lexSoyDocParam_sat {n : Int} {l : Lexer} (hn : l.len = n ∧ (l.mp : Int) ≤ n ∧ 0 ≤ l.tagStart ∧ l.tagStart ≤ n ∧ l.bad = 0) (h0 : 0 ≤ l.start)
+theorem lexSoyDocParam_sat {n : Int} {l : Lexer} (hn : l.len = n ∧ (l.mp : Int) ≤ n ∧ 0 ≤ l.tagStart ∧ l.tagStart ≤ n ∧ l.bad = 0 ∧ l.tagBad = 0) (h0 : 0 ≤ l.start)
     (h1 : l.start ≤ l.pos) (h2 : l.pos + 6 ≤ n) :
-    Sat (lexSoyDocParam l) (SdpPost n l.pos) := by
+    Sat (lexSoyDocParam l) (fun l' => SdpPost n l.pos l' ∧ l'.input = l.input) := by
   unfold lexSoyDocParam
   dsimp only
   obtain ⟨ch, l1, e1, hl1, hs1, hf1⟩ := next_ex (l := { l with pos := l.pos + 6 }) (by dsimp only; omega)
   unfold NextFacts at hf1
   simp only [Lexer.len] at hl1 hf1 hn
   dsimp only at hl1 hs1 hf1
+  have ht6 : ({ l with pos := l.pos + 6 } : Lexer).tagBad = l.tagBad := rfl
   simp only [e1]
   split
   · obtain ⟨c2, l2, e2, hl2, hs2, hf2⟩ := next_ex (l := l1) (by omega)
@@ -124,16 +133,20 @@ theorem lexSoyDocParam_sat {n : Int} {l : Lexer} (hn : l.len = n ∧ (l.mp : Int
     simp only [e2]
     split
     · apply Sat.ofSome
+      refine ⟨?_, by rw [hl2.2.2.2.2.2, hl1.2.2.2.2.2]⟩
       unfold SdpPost
       exact ⟨by lx, by lx, by lx, by lx, by lx⟩
     · obtain ⟨l3, e3, hl3, hp3, hs3, hw3⟩ := emit_ex .tSoyDocOptionalParam (l := l2.backup) (by lx) (by lx) (by lx)
       simp only [e3]
-      exact (lexSoyDocParamName_sat (by lx) (by lx) (by lx) (by lx)).mono (fun _ h => h.mono (by lx))
+      exact (lexSoyDocParamName_sat (by lx) (by lx) (by lx) (by lx)).mono (fun _ h => ⟨h.1.mono (by lx),
+        by rw [h.2, hl3.2.2.2.2.2.2, backup_input, hl2.2.2.2.2.2, hl1.2.2.2.2.2]⟩)
   · split
     · obtain ⟨l3, e3, hl3, hp3, hs3, hw3⟩ := emit_ex .tSoyDocParam (l := l1.backup) (by lx) (by lx) (by lx)
       simp only [e3]
-      exact (lexSoyDocParamName_sat (by lx) (by lx) (by lx) (by lx)).mono (fun _ h => h.mono (by lx))
+      exact (lexSoyDocParamName_sat (by lx) (by lx) (by lx) (by lx)).mono (fun _ h => ⟨h.1.mono (by lx),
+        by rw [h.2, hl3.2.2.2.2.2.2, backup_input, hl1.2.2.2.2.2]⟩)
     · apply Sat.ofSome
+      refine ⟨?_, by rw [hl1.2.2.2.2.2]⟩
       unfold SdpPost
       exact ⟨by lx, by lx, by lx, by lx, by lx⟩
 
@@ -144,12 +157,13 @@ theorem isEndOfLine_nonneg {r : Int} (h : isEndOfLine r = true) : 0 ≤ r := by
 /-- the loop of lexSoyDoc, entered (from lexText at `l0`) after input has been consumed -/
 theorem lexSoyDocLoop_sat {n : Int} {l0 : Lexer} : ∀ (k : Nat) (l : Lexer) (ds : Int) (star sol : Bool),
     2 * l.rem + (if sol = true then 1 else 0) = k →
-    (l.len = n ∧ (l.mp : Int) ≤ n ∧ 0 ≤ l.tagStart ∧ l.tagStart ≤ n ∧ l.bad = 0) → 0 ≤ l.start → l.start ≤ l.pos → l.pos ≤ n → l0.pos < l.pos →
-    ds ≤ n → Sat (lexSoyDocLoop l ds star sol) (Post n .text l0) := by
+    (l.len = n ∧ (l.mp : Int) ≤ n ∧ 0 ≤ l.tagStart ∧ l.tagStart ≤ n ∧ l.bad = 0 ∧ l.tagBad = 0) → 0 ≤ l.start → l.start ≤ l.pos → l.pos ≤ n → l0.pos < l.pos →
+    (ds ≤ n ∧ byteAt l.input ds.toNat = 47 ∧ byteAt l.input (ds.toNat + 1) = 42 ∧ byteAt l.input (ds.toNat + 2) = 42) → l.input = l0.input →
+    Sat (lexSoyDocLoop l ds star sol) (Post n .text l0) := by
   intro k
   induction k using Nat.strongRecOn with
   | _ k ih =>
-    intro l ds star sol hk hn h0 h1 h2 hadv hds
+    intro l ds star sol hk hn h0 h1 h2 hadv hds hi0
     unfold lexSoyDocLoop
     split
     · rename_i heq
@@ -158,8 +172,11 @@ theorem lexSoyDocLoop_sat {n : Int} {l0 : Lexer} : ∀ (k : Nat) (l : Lexer) (ds
     · rename_i ch l1 hnx
       obtain ⟨hl1, hs1, hf1⟩ := next_facts hnx (by lx)
       unfold NextFacts at hf1
+      have hds1 : ds ≤ n ∧ byteAt l1.input ds.toNat = 47 ∧ byteAt l1.input (ds.toNat + 1) = 42 ∧ byteAt l1.input (ds.toNat + 2) = 42 := by
+        rw [hl1.2.2.2.2.2]; exact hds
       split
-      · first | exact errorf_sat (by lx) | exact errorfAt_sat (by lx)
+      · -- the soydoc comment is never closed: reported at its `/**`, `docStart`
+        exact errorfAt_sat (by lx) (by inq) (doc_err hds1.2)
       rename_i hE
       simp only [eof] at hE
       have hrem1 : l1.rem < l.rem := by simp only [Lexer.rem]; lx
@@ -170,15 +187,15 @@ theorem lexSoyDocLoop_sat {n : Int} {l0 : Lexer} : ∀ (k : Nat) (l : Lexer) (ds
         obtain ⟨l3, e3, hl3, hp3, hs3, hw3⟩ := emit_ex .tSoyDocEnd (l := l2) (by lx) (by lx) (by lx)
         simp only [e3]
         apply Sat.ofSome
-        apply Post.of (by lx) (by lx) (by lx) (by lx) (by lx) (by intro _ _; lx) (by intro _ _; lx)
+        apply Post.of (by lx) (by lx) (by lx) (by lx) (by lx) (by intro _ _; lx) (by intro _ _; lx) (by exq) (by inq)
       split
       · rename_i hS
         split
         · exact ih _ (by rw [← hk]; simp only [hS, if_true]; omega) l1 _ _ _ rfl
-            (by lx) (by lx) (by lx) (by lx) (by lx) hds
+            (by lx) (by lx) (by lx) (by lx) (by lx) hds1 (by inq)
         split
         · exact ih _ (by rw [← hk]; simp only [hS, if_true]; omega) l1 _ _ _ rfl
-            (by lx) (by lx) (by lx) (by lx) (by lx) hds
+            (by lx) (by lx) (by lx) (by lx) (by lx) hds1 (by inq)
         · rename_i hSp hSt
           have hpre := hasPrefixAt_sat (s := l1.input) (pos := l1.pos - 1) (pre := atParam)
             (Q := fun b => b = true → l1.pos - 1 + 6 ≤ l1.len) (by lx) (by lx)
@@ -188,32 +205,33 @@ theorem lexSoyDocLoop_sat {n : Int} {l0 : Lexer} : ∀ (k : Nat) (l : Lexer) (ds
           · rename_i pre hPre
             have hlen := hpre.of_eq hPre
             have hsat : Sat (if pre = true then lexSoyDocParam (l1.addPos (-1)).ignore
-                else some (l1.addPos (-1)).ignore) (SdpPost n (l1.pos - 1)) := by
+                else some (l1.addPos (-1)).ignore) (fun l' => SdpPost n (l1.pos - 1) l' ∧ l'.input = l1.input) := by
               split
               · rename_i hp
                 have := hlen hp
                 exact (lexSoyDocParam_sat (l := (l1.addPos (-1)).ignore) (by lx) (by lx) (by lx) (by lx)).mono
-                  (fun _ h => h.mono (by lx))
+                  (fun _ h => ⟨h.1.mono (by lx), by rw [h.2, ignore_input, addPos_input]⟩)
               · apply Sat.ofSome
+                refine ⟨?_, by rw [ignore_input, addPos_input]⟩
                 unfold SdpPost
                 exact ⟨by lx, by lx, by lx, by lx, by lx⟩
             split
             · rename_i hP; exact absurd hP hsat.ne_none
             · rename_i l2 hP
-              have hp2 := hsat.of_eq hP
+              obtain ⟨hp2, hin2⟩ := hsat.of_eq hP
               unfold SdpPost at hp2
               have hrem2 : l2.rem ≤ l.rem := by simp only [Lexer.rem]; lx
               split
               · rename_i hEol
                 exact absurd (isEndOfLine_isSpaceEOL hEol) hSp
               · exact ih _ (by rw [← hk]; simp only [hS, if_true, Bool.false_eq_true, if_false]; omega) l2 _ _ _ rfl
-                  (by lx) (by lx) (by lx) (by lx) (by lx) hds
+                  (by lx) (by lx) (by lx) (by lx) (by lx) (by rw [hin2]; exact hds1) (by inq)
       · rename_i hS
         have hS' : sol = false := by simpa using hS
         split
         · have hm := maybeEmitText_sat (l := l1) (k := 1)
-            (Q := fun l' => (l'.len = l1.len ∧ l1.mp ≤ l'.mp ∧ ((l'.mp : Int) = l1.mp ∨ (l'.mp : Int) = l1.pos - 1) ∧ l'.tagStart = l1.tagStart ∧ l'.bad = l1.bad) ∧ l'.pos = l1.pos ∧ l'.width = l1.width ∧
-              (l'.start = l1.start ∨ (l1.start < l1.pos - 1 ∧ l'.start = l1.pos - 1)))
+            (Q := fun l' => (l'.len = l1.len ∧ l1.mp ≤ l'.mp ∧ ((l'.mp : Int) = l1.mp ∨ (l'.mp : Int) = l1.pos - 1) ∧ l'.tagStart = l1.tagStart ∧ l'.bad = l1.bad ∧ l'.tagBad = l1.tagBad ∧ l'.input = l1.input) ∧ l'.pos = l1.pos ∧ l'.width = l1.width ∧
+              ((l'.start = l1.start ∧ l1.pos - 1 ≤ l1.start) ∨ (l1.start < l1.pos - 1 ∧ l'.start = l1.pos - 1)))
             (by lx) (by omega) (by lx) (fun _ a b c d => ⟨a, b, c, d⟩)
           split
           · rename_i hM; exact absurd hM hm.ne_none
@@ -221,17 +239,19 @@ theorem lexSoyDocLoop_sat {n : Int} {l0 : Lexer} : ∀ (k : Nat) (l : Lexer) (ds
             obtain ⟨hl2, hp2, hw2, hs2⟩ := hm.of_eq hM
             have hrem2 : l2.rem < l.rem := by simp only [Lexer.rem]; lx
             exact ih _ (by rw [← hk]; simp only [hS', Bool.false_eq_true, if_false, if_true]; omega) l2 _ _ _ rfl
-              (by lx) (by lx) (by lx) (by lx) (by lx) hds
+              (by lx) (by lx) (by lx) (by lx) (by lx) (by rw [hl2.2.2.2.2.2.2]; exact hds1) (by inq)
         · exact ih _ (by rw [← hk]; simp only [hS', Bool.false_eq_true, if_false]; omega) l1 _ _ _ rfl
-            (by lx) (by lx) (by lx) (by lx) (by lx) hds
+            (by lx) (by lx) (by lx) (by lx) (by lx) hds1 (by inq)
 
-theorem lexSoyDoc_sat {n : Int} {l0 l : Lexer} (hn : l.len = n ∧ (l.mp : Int) ≤ n ∧ 0 ≤ l.tagStart ∧ l.tagStart ≤ n ∧ l.bad = 0) (h0 : 0 ≤ l.start)
-    (h1 : l.start ≤ l.pos) (h2 : l.pos ≤ n) (hadv : l0.pos < l.pos) :
+theorem lexSoyDoc_sat {n : Int} {l0 l : Lexer} (hn : l.len = n ∧ (l.mp : Int) ≤ n ∧ 0 ≤ l.tagStart ∧ l.tagStart ≤ n ∧ l.bad = 0 ∧ l.tagBad = 0) (h0 : 0 ≤ l.start)
+    (h1 : l.start ≤ l.pos) (h2 : l.pos ≤ n) (hadv : l0.pos < l.pos)
+    (hdoc : byteAt l.input l.start.toNat = 47 ∧ byteAt l.input (l.start.toNat + 1) = 42 ∧ byteAt l.input (l.start.toNat + 2) = 42)
+    (hi0 : l.input = l0.input) :
     Sat (lexSoyDoc l) (Post n .text l0) := by
   unfold lexSoyDoc
   obtain ⟨l1, e1, hl1, hp1, hs1, hw1⟩ := emit_ex .tSoyDocStart (l := l) (by lx) (by lx) (by lx)
   simp only [e1]
-  exact lexSoyDocLoop_sat _ l1 _ _ _ rfl (by lx) (by lx) (by lx) (by lx) (by lx) (by lx)
+  exact lexSoyDocLoop_sat _ l1 _ _ _ rfl (by lx) (by lx) (by lx) (by lx) (by lx) ⟨by lx, by rw [hl1.2.2.2.2.2.2]; exact hdoc⟩ (by inq)
 
 
 /-! ### lexText -/
@@ -239,13 +259,13 @@ theorem lexSoyDoc_sat {n : Int} {l0 l : Lexer} (hn : l.len = n ∧ (l.mp : Int) 
 /-- the loop of lexText started at `l0`: `start` stays put, `pos` moves on, and once a
     character has been read (`lastChar ≠ 0`) the pending text is not empty -/
 theorem lexTextLoop_sat {n : Int} {l0 : Lexer} : ∀ (k : Nat) (l : Lexer) (lastChar : Int), l.rem = k →
-    (l.len = n ∧ (l.mp : Int) ≤ n ∧ 0 ≤ l.tagStart ∧ l.tagStart ≤ n ∧ l.bad = 0) → 0 ≤ l.start → l.start ≤ l.pos → l.pos ≤ n → l0.pos ≤ l.pos →
-    (lastChar = 0 ∨ l.start < l.pos) →
+    (l.len = n ∧ (l.mp : Int) ≤ n ∧ 0 ≤ l.tagStart ∧ l.tagStart ≤ n ∧ l.bad = 0 ∧ l.tagBad = 0) → 0 ≤ l.start → l.start ≤ l.pos → l.pos ≤ n → l0.pos ≤ l.pos →
+    (lastChar = 0 ∨ l.start < l.pos) → l.input = l0.input →
     Sat (lexTextLoop l lastChar) (Post n .text l0) := by
   intro k
   induction k using Nat.strongRecOn with
   | _ k ih =>
-    intro l lastChar hk hn h0 h1 h2 hle hlast
+    intro l lastChar hk hn h0 h1 h2 hle hlast hi0
     unfold lexTextLoop
     split
     · rename_i heq
@@ -275,16 +295,17 @@ theorem lexTextLoop_sat {n : Int} {l0 : Lexer} : ∀ (k : Nat) (l : Lexer) (last
               simp only [e3]
               by_cases hlc : lastChar = 0
               · simp only [hlc, ne_eq, not_true_eq_false, if_false]
-                exact lexLineComment_sat (by lx) (by lx) (by lx) (by lx) (by lx)
+                exact lexLineComment_sat (by lx) (by lx) (by lx) (by lx) (by lx) (by inq)
               · simp only [ne_eq, hlc, not_false_eq_true, if_true]
                 have hlast' : l.start < l.pos := by
                   rcases hlast with h | h
                   · exact absurd h hlc
                   · exact h
+                have ht3 : ({ l3 with start := l3.start + 1 } : Lexer).tagBad = l3.tagBad := rfl
                 exact lexLineComment_sat (l := { l3 with start := l3.start + 1 })
                   (by simp only [Lexer.len, Lexer.mp, Lexer.bad] at *; omega) (by dsimp only; lx) (by dsimp only; lx)
-                  (by dsimp only; lx) (by dsimp only; lx)
-            · exact ih _ (by omega) l2.backup _ rfl (by lx) (by lx) (by lx) (by lx) (by lx) (Or.inr (by lx))
+                  (by dsimp only; lx) (by dsimp only; lx) (by dsimp only; inq)
+            · exact ih _ (by omega) l2.backup _ rfl (by lx) (by lx) (by lx) (by lx) (by lx) (Or.inr (by lx)) (by inq)
           split
           · -- "/*"
             obtain ⟨l3, e3, hl3, hp3, hw3, hs3⟩ := maybeEmitText_ex (l := l2) (k := 2) (by lx) (by omega) (by lx)
@@ -292,51 +313,82 @@ theorem lexTextLoop_sat {n : Int} {l0 : Lexer} : ∀ (k : Nat) (l : Lexer) (last
             obtain ⟨r3, l4, e4, hl4, hs4, hf4⟩ := next_ex (l := l3) (by lx)
             unfold NextFacts at hf4
             simp only [e4]
+            -- the comment begins at `l.pos`, where `/` and `*` were read; that is `l3.start`
+            rename_i hstar
+            have hc0 := next_content hnx (by omega) (by omega)
+            have hc1 := next_content hnx2 (by omega) (by omega)
+            rw [hl1.2.2.2.2.2] at hc1
+            have hst3 : l3.start = l.pos := by lx
+            have hp1 : l1.pos = l.pos + 1 := by lx
+            have hin4 : l4.input = l.input := by
+              rw [hl4.2.2.2.2.2, hl3.2.2.2.2.2.2, hl2.2.2.2.2.2, hl1.2.2.2.2.2]
+            have hcm : byteAt l4.input l4.start.toNat = 47 ∧ byteAt l4.input (l4.start.toNat + 1) = 42 := by
+              rw [hin4, hs4, hst3]
+              have e : (l.pos + 1).toNat = l.pos.toNat + 1 := by omega
+              rw [hp1, e] at hc1
+              omega
             split
-            · exact lexSoyDoc_sat (by lx) (by lx) (by lx) (by lx) (by lx)
+            · rename_i hstar3
+              have hc2 := next_content e4 (by omega) (by omega)
+              rw [hl3.2.2.2.2.2.2, hl2.2.2.2.2.2, hl1.2.2.2.2.2] at hc2
+              have hp3 : l3.pos = l.pos + 2 := by lx
+              have e2' : (l.pos + 2).toNat = l.pos.toNat + 2 := by omega
+              rw [hp3, e2'] at hc2
+              exact lexSoyDoc_sat (by lx) (by lx) (by lx) (by lx) (by lx)
+                ⟨hcm.1, hcm.2, by rw [hin4, hs4, hst3]; omega⟩ (by inq)
             · exact lexBlockComment_sat _ l4.backup _ rfl (by lx) (by lx) (by lx) (by lx) (by lx)
-          · exact ih _ (by omega) l2.backup _ rfl (by lx) (by lx) (by lx) (by lx) (by lx) (Or.inr (by lx))
+                (by simpa using hcm) (by inq)
+          · exact ih _ (by omega) l2.backup _ rfl (by lx) (by lx) (by lx) (by lx) (by lx) (Or.inr (by lx)) (by inq)
       split
       · -- '{'
         obtain ⟨l2, e2, hl2, hp2, hw2, hs2⟩ := maybeEmitText_ex (l := l1.backup) (k := 0) (by lx) (by omega) (by lx)
         simp only [e2]
         apply Sat.ofSome
-        apply Post.of (by lx) (by lx) (by lx) (by lx) (by lx) (by intro _ _; decide) (by intro _ _; decide)
+        refine Post.of (by lx) (by lx) (by lx) (by lx) (by lx) (by intro _ _; decide) (by intro _ _; decide) ?_ (by inq)
+        -- `lexLeftDelim` starts at the `{` just seen
+        rename_i hbrace
+        have hc := next_content hnx (by omega) (by omega)
+        simp only [Extra]
+        refine ⟨by lx, ?_⟩
+        have hp : l2.pos = l.pos := by lx
+        rw [hp, hl2.2.2.2.2.2.2, backup_input, hl1.2.2.2.2.2]
+        omega
       split
-      · first | exact errorf_sat (by lx) | exact errorfAt_sat (by lx)
+      · first | exact errorf_sat (by lx) (by inq) | exact errorfAt_sat (by lx) (by inq) (by first | exact tag_err (by lx) (by lx) (Or.inl rfl) | exact tag_err (by lx) (by lx) (Or.inr rfl))
       split
       · -- eof
         obtain ⟨l2, e2, hl2, hp2, hw2, hs2⟩ := maybeEmitText_ex (l := l1.backup) (k := 0) (by lx) (by omega) (by lx)
         simp only [e2]
-        obtain ⟨l3, e3, hmp3, hbad3, it, hb, ht⟩ := emit_eof_ex (l := l2) (by lx) (by lx) (by lx)
+        obtain ⟨l3, e3, hmp3, hbad3, ⟨it, hb, ht⟩, hin3⟩ := emit_eof_ex (l := l2) (by lx) (by lx) (by lx)
         simp only [e3]
-        exact Sat.ofSome (Post.nil ⟨it, hb, Or.inl ht⟩ ⟨by lx, by rw [hbad3]; lx⟩)
+        exact Sat.ofSome (Post.nil ⟨it, hb, Or.inl ht⟩ ⟨by lx, by rw [hbad3]; lx⟩
+          (fun it' hb' ht' => by rw [hb] at hb'; cases hb'; rw [ht] at ht'; cases ht') (by inq))
       · rename_i hE
         simp only [eof] at hE
         have hrem : l1.rem < l.rem := by simp only [Lexer.rem]; lx
-        exact ih _ (by omega) l1 _ rfl (by lx) (by lx) (by lx) (by lx) (by lx) (Or.inr (by lx))
+        exact ih _ (by omega) l1 _ rfl (by lx) (by lx) (by lx) (by lx) (by lx) (Or.inr (by lx)) (by inq)
 
 theorem lexText_ok {n : Int} {l : Lexer} (hg : Good n l) :
     Sat (lexText l) (Post n .text l) := by
   obtain ⟨hn, hs0, hsp, hpn⟩ := hg
   unfold lexText
-  exact lexTextLoop_sat _ l 0 rfl hn hs0 hsp hpn (Int.le_refl _) (Or.inl rfl)
+  exact lexTextLoop_sat _ l 0 rfl hn hs0 hsp hpn (Int.le_refl _) (Or.inl rfl) rfl
 
 /-! ### every state function -/
 
-theorem step_ok {n : Int} (s : St) {l : Lexer} (hg : Good n l) : Sat (step s l) (Post n s l) := by
+theorem step_ok {n : Int} (s : St) {l : Lexer} (hg : Good n l) (hx : Extra s l) : Sat (step s l) (Post n s l) := by
   cases s with
   | text => exact lexText_ok hg
-  | leftDelim => exact lexLeftDelim_ok hg
+  | leftDelim => exact lexLeftDelim_ok hg hx
   | rightDelim => exact lexRightDelim_ok hg
   | rightDelimEnd => exact lexRightDelimEnd_ok hg
-  | beginTag => exact lexBeginTag_ok hg
-  | insideTag => exact lexInsideTag_ok hg
+  | beginTag => exact lexBeginTag_ok hg hx
+  | insideTag => exact lexInsideTag_ok hg hx
   | ident => exact lexIdent_ok hg
   | number => exact lexNumber_ok hg
   | headerParam => exact lexHeaderParam_ok hg
   | css => exact lexCss_ok hg
   | literal => exact lexLiteral_ok hg
-  | str q => exact lexString_ok hg
+  | str q => exact lexString_ok hg hx
 
 end SoyVerif.Model.Lex
